@@ -157,7 +157,80 @@ func Load(c LoadConfig) (*Prog, error) {
 			p.LtxVer = pk.Module.Version
 		}
 	})
+	p.resolveRenames()
+	curProg = p
+	refAnchors = loadAnchors()
+	callSiteCache = map[*ssa.Function][]ssa.CallInstruction{}
+	propagatingCache = map[*ssa.Function]map[int]bool{}
+	deadCache = map[*Prog]map[*ssa.Function]bool{}
 	return p, nil
+}
+
+// funcSig is the rename-stable fingerprint of a function: receiver type and signature.
+func funcSig(fn *ssa.Function) string {
+	recv := ""
+	if r := fn.Signature.Recv(); r != nil {
+		recv = shortName(r.Type().String())
+	} else if fn.Pkg != nil {
+		recv = "pkg:" + shortName(fn.Pkg.Pkg.Path())
+	}
+	return recv + "|" + shortName(fn.Signature.String())
+}
+
+// renamedTo maps the current short name of a renamed function to the name it
+// had on the reference tree (anchors.json), so that every rule keeps working
+// when an unexported function is merely renamed.  Set by resolveRenames.
+var renamedTo = map[string]string{}
+
+// Renames reports the aliases in effect (for the evidence).
+func (p *Prog) Renames() map[string]string { return renamedTo }
+
+func (p *Prog) resolveRenames() {
+	renamedTo = map[string]string{}
+	ref := loadAnchors()
+	if len(ref) == 0 {
+		return
+	}
+	// functions of P that exist today but were unknown on the reference tree, by fingerprint
+	bySig := map[string][]*ssa.Function{}
+	for name, fn := range p.funcs {
+		if _, known := ref[name]; known || !p.InP(fn) {
+			continue
+		}
+		bySig[funcSig(fn)] = append(bySig[funcSig(fn)], fn)
+	}
+	// reference functions that are gone today
+	goneBySig := map[string][]string{}
+	for name, sig := range ref {
+		if _, ok := p.funcs[name]; !ok {
+			goneBySig[sig] = append(goneBySig[sig], name)
+		}
+	}
+	for sig, olds := range goneBySig {
+		news := bySig[sig]
+		if len(olds) != 1 || len(news) != 1 {
+			continue // ambiguous or really gone: stays an unresolved anchor
+		}
+		newName := shortName(news[0].String())
+		renamedTo[newName] = olds[0]
+		p.funcs[olds[0]] = news[0]
+	}
+}
+
+// canonName applies the rename aliases to a short function name (closures keep their $N suffix).
+func canonName(s string) string {
+	if len(renamedTo) == 0 {
+		return s
+	}
+	if o, ok := renamedTo[s]; ok {
+		return o
+	}
+	if i := strings.IndexByte(s, '$'); i > 0 {
+		if o, ok := renamedTo[s[:i]]; ok {
+			return o + s[i:]
+		}
+	}
+	return s
 }
 
 // shortName abbreviates the module path: "(*ls.DB).sync", "ls.CalcRestorePlan",
@@ -302,5 +375,5 @@ func fnName(fn *ssa.Function) string {
 	if fn == nil {
 		return "<nil>"
 	}
-	return shortName(fn.String())
+	return canonName(shortName(fn.String()))
 }
